@@ -1240,3 +1240,48 @@ def revised_calendar_items(rules=("TSLACK",)):
 def extra_items(rules=("TSLACK",), calendars=True):
     """round 13: other ways of building the object graph, and continuations planned with another calendar / flag than the part before the stop"""
     return usage_items(rules) + (revised_calendar_items(rules) if calendars else [])
+
+
+def stuck_component_specs():
+    """a component with two sequential machine tasks; the second task's workplace (the hall) is full for a long while, so the component stays in the first
+    workplace, whose second machine is skilled for the second task although that workplace is not assigned to it; the second task may name machines by ID"""
+    out = []
+    for fixf in (None, ["F1"], ["F1", "F2"], ["F2"]):
+        out.append({"tasks": [{"name": "T0", "work": 2.0, "nf": True}, {"name": "T1", "work": 2.0, "nf": True, "fixf": fixf}, {"name": "T2", "work": 9.0, "nf": True}], "links": [[0, 1, "FS"]],
+                    "components": [{"name": "C0", "tasks": [0, 1], "space": 1.0}, {"name": "C2", "tasks": [2], "space": 1.0}],
+                    "workplaces": [{"name": "WP0", "cap": 1.0, "targets": [1, 2], "facilities": [{"name": "F2", "skills": {"T2": 1.0, "T1": 1.0}, "cost": 1.0}]},
+                                   {"name": "WP1", "cap": 1.0, "targets": [0], "facilities": [{"name": "F0", "skills": {"T0": 1.0}, "cost": 1.0}, {"name": "F1", "skills": {"T1": 1.0}, "cost": 1.0}]}],
+                    "teams": [{"name": "TM0", "targets": [0, 1, 2], "workers": [{"name": "W0", "skills": {"T0": 1.0, "T1": 1.0}, "fskills": {"F0": 1.0, "F1": 1.0, "F2": 1.0}, "cost": 1.0},
+                                                                               {"name": "W1", "skills": {"T2": 1.0}, "fskills": {"F2": 1.0}, "cost": 1.0}]}],
+                    "label": "stuck-component:fixf=%s" % (fixf,)})
+    return out
+
+
+def named_machine_specs():
+    """a machine task that names its machine(s) by ID next to a plain task competing for the same worker; two machines share one name"""
+    out = []
+    for fixf in (["F0"], ["F1"], None):
+        for frule in ("SSP", "HSV"):
+            for works in ((2.0, 4.0), (4.0, 2.0)):
+                f0 = {"name": "lathe", "id": "F0", "skills": {"H": 1.0}, "cost": 1.0}
+                f1 = {"name": "lathe", "id": "F1", "skills": {"H": 1.5}, "cost": 1.0}
+                out.append({"tasks": [{"name": "H", "work": works[0], "nf": True, "fixf": fixf, "frule": frule}, {"name": "L", "work": works[1]}], "links": [], "components": [{"name": "C0", "tasks": [0]}],
+                            "workplaces": [{"name": "WP0", "cap": 1.0, "targets": [0], "facilities": [f0, f1]}],
+                            "teams": [{"name": "TM0", "targets": [0, 1], "workers": [{"name": "w", "skills": {"H": 1.0, "L": 1.0}, "fskills": {"lathe": 1.0}, "cost": 1.0}]}],
+                            "label": "named-machine:%s:%s:%s" % (fixf, frule, works)})
+    return out
+
+
+def half_wired_workplace_specs():
+    """task H is assigned to W1 through append_targeted_task and to W2 through the constructor keyword only (W2 knows H, H does not know W2); H's component is at
+    W2 (its first task was done there) and W1 is occupied; a plain task L competes for H's worker"""
+    out = []
+    for hw, lw in ((3.0, 4.0), (4.0, 3.0), (2.0, 2.0)):
+        out.append({"tasks": [{"name": "T0", "work": 1.0, "nf": True}, {"name": "H", "work": hw, "nf": True}, {"name": "L", "work": lw}, {"name": "X", "work": 9.0, "nf": True}], "links": [[0, 1, "FS"]],
+                    "components": [{"name": "C0", "tasks": [0, 1], "space": 1.0}, {"name": "CX", "tasks": [3], "space": 1.0}],
+                    "workplaces": [{"name": "W1", "cap": 1.0, "targets": [1, 3], "facilities": [{"name": "F1", "skills": {"H": 1.0, "X": 1.0}}]},
+                                   {"name": "W2", "cap": 1.0, "targets": [0, 1], "targets_ctor": [1], "facilities": [{"name": "F2", "skills": {"T0": 1.0, "H": 1.0}}]}],
+                    "teams": [{"name": "TM0", "targets": [0, 1, 2, 3], "workers": [{"name": "w", "skills": {"T0": 1.0, "H": 1.0, "L": 1.0}, "fskills": {"F1": 1.0, "F2": 1.0}, "cost": 1.0},
+                                                                                  {"name": "v", "skills": {"X": 1.0}, "fskills": {"F1": 1.0}, "cost": 1.0}]}],
+                    "label": "half-wired-workplace:%s:%s" % (hw, lw)})
+    return out
